@@ -1,6 +1,7 @@
 import CasbinVerif.Driver.Effector
 import CasbinVerif.Driver.Store
 import CasbinVerif.Driver.Enforcer
+import CasbinVerif.Driver.KeyMatch
 /-
   casbin-model: the line-protocol driver.  Reads one operation per line on stdin and prints, for
   every line, `<model observation> ;; <spec observation> ;; <wf>` where `wf` tells whether the line
@@ -25,6 +26,9 @@ def stepLine (st : DState) (line : String) : DState × String :=
   match effectorOp ts with
   | some (m, s, wf) => (st, fmt m s wf)
   | none =>
+    match kmOp ts with
+    | some (m, s, wf) => (st, fmt m s wf)
+    | none =>
     if comp == "store" then
       match storeOp st.store ts with
       | some (s', m, s, wf) => ({ st with store := s' }, fmt m s wf)
